@@ -5,7 +5,11 @@ import mir_check
 
 def run_mir(tier, seed):
     import keyload
-    return mir_check.run_obligations([keyload.ob_key_load])
+    import csr
+    r1, v1, i1 = mir_check.run_obligations([keyload.ob_key_load])
+    # the exported SubjectPublicKeyInfo must parse back to the same algorithm: the algorithm match of SubjectPublicKeyInfo::from_der (feature x509-parser)
+    r2, v2, i2 = mir_check.run_obligations([csr.ob_spki_match], features="x509-parser")
+    return r1 + r2, v1 + v2, i1 + i2
 
 
 def spec(tier, seed):
